@@ -1,5 +1,6 @@
 import ConserveModel.Proofs.FsModeFull
 import ConserveModel.Proofs.FsWalkTree
+import ConserveModel.Proofs.FsGuard
 import ConserveModel.Props.C11Walk
 /-
 C16 — Restore stays inside its destination and never clobbers by default; and C01 (c), the
@@ -78,6 +79,79 @@ theorem restore_confined_of_confinable (fs : Fs) (dest : Path) (nodes : List RNo
     ∀ p, ¬ under dest p → (p ≠ dest.dropLast ∨ fs.node dest ≠ none) → fs'.node p = fs.node p :=
   restoreToFs_outside hC hwf hD
 
+/-- Confinement under the WEAKEST hypothesis on the listing (`ConfinableL`): distinct valid
+apaths, and every entry that is a proper ancestor of another entry is a directory or a FILE —
+never a symlink (an entry for the root apath apart: it never becomes a symlink, the destination
+exists).  Below a file entry nothing can be created: the path fails to resolve with ENOTDIR. -/
+theorem restore_confined_of_confinableL (fs : Fs) (dest : Path) (nodes : List RNode)
+    (uidOf gidOf : Str → Option Nat) (oldOrder : Bool)
+    (hC : ConfinableL nodes) (hwf : fs.wf = true) (hD : DestPlain fs dest) :
+    let fs' := (restoreToFs fs dest false nodes uidOf gidOf oldOrder).1
+    ∀ p, ¬ under dest p → (p ≠ dest.dropLast ∨ fs.node dest ≠ none) → fs'.node p = fs.node p :=
+  restoreToFs_outsideL hC hwf hD
+
+/-! ### Any listing: the guard of commit 7db24bb -/
+
+/-- **The guard** (src/restore.rs since commit 7db24bb; `restoreEntries` in Restore.lean), as an
+invariant with `syms`: in ANY world (any store, faults, crash point), if the per-entry loop
+started with the symlink set `syms` returns `nodes`, then no node is strictly below (by
+`belowSymlink`: proper ancestor by whole components, the root never counting) an element of
+`syms` or the apath of a SYMLINK node that precedes it in `nodes`. -/
+theorem restoreEntries_no_entry_below_symlink_syms (H : Str → Str) (syms : List Str)
+    (es : List IndexEntry) (w w' : World) (nodes : List RNode)
+    (h : (restoreEntries H syms es).run w = (.ok nodes, w')) :
+    ∀ pre n post, nodes = pre ++ n :: post →
+      ∀ s, (s ∈ syms ∨ ∃ m ∈ pre, m.kind = .symlink ∧ m.apath = s) →
+        belowSymlink [s] n.apath = false := by
+  intro pre n post e s hs
+  have := ((restoreEntries_post H es syms).run w nodes w' h).1
+  rw [e] at this
+  exact guardedFrom_split pre syms n post this s hs
+
+/-- The guard for `restore()` itself (`syms = []`), by whole components: no returned node has a
+proper ancestor, other than the root, that is the apath of an EARLIER SYMLINK node (apaths
+valid, as every listing's are). -/
+theorem restoreEntries_no_entry_below_symlink (H : Str → Str) (es : List IndexEntry) (w w' : World)
+    (nodes : List RNode) (h : (restoreEntries H [] es).run w = (.ok nodes, w')) :
+    ∀ pre n post, nodes = pre ++ n :: post → ∀ m ∈ pre, m.kind = .symlink →
+      isValid m.apath = true → isValid n.apath = true → comps m ≠ [] →
+      comps m <+: comps n → comps m = comps n := by
+  intro pre n post e m hm hk hvm hvn hroot hpre
+  apply Classical.byContradiction
+  intro hne
+  have h1 := restoreEntries_no_entry_below_symlink_syms H [] es w w' nodes h pre n post e m.apath
+    (Or.inr ⟨m, hm, hk, rfl⟩)
+  have h2 := belowSymlink_of_mem (syms := [m.apath]) List.mem_cons_self hvm hvn hroot hpre hne
+  rw [h1] at h2; cases h2
+
+/-- What `restoreEntries` returns for a listing with valid, strictly increasing apaths — what
+`C08.listed_valid` / `C08.stitch_sorted` give for ANY version, complete or stitched from an
+interrupted one — satisfies `ConfinableL`: entries may still lie below a FILE entry of the same
+listing (harmless), never below a symlink entry. -/
+theorem restoreEntries_confinableL (H : Str → Str) (es : List IndexEntry) (w w' : World)
+    (nodes : List RNode)
+    (hv : ∀ e ∈ es, isValid e.apath = true)
+    (hs : es.Pairwise fun a b => apathCmp a.apath b.apath = .lt)
+    (h : (restoreEntries H [] es).run w = (.ok nodes, w')) : ConfinableL nodes :=
+  guardedOut_confinableL hv hs ((restoreEntries_post H es []).run w nodes w' h)
+
+/-- **Confinement for any listing** (complete or interrupted version): for every list of index
+entries with valid, strictly increasing apaths, in any world, whatever nodes the per-entry loop
+of `restore()` hands to the file system, restoring them without the overwrite option changes
+nothing outside the destination (same side conditions on the caller's destination path as
+`restore_confined`; same single exception, the mtime of the parent of an absent destination). -/
+theorem restore_confined_any_listing (H : Str → Str) (es : List IndexEntry) (w w' : World)
+    (nodes : List RNode) (fs : Fs) (dest : Path) (uidOf gidOf : Str → Option Nat) (oldOrder : Bool)
+    (hv : ∀ e ∈ es, isValid e.apath = true)
+    (hs : es.Pairwise fun a b => apathCmp a.apath b.apath = .lt)
+    (h : (restoreEntries H [] es).run w = (.ok nodes, w'))
+    (hwf : fs.wf = true) (hD : DestPlain fs dest) :
+    let fs' := (restoreToFs fs dest false nodes uidOf gidOf oldOrder).1
+    (∀ p, ¬ under dest p → (p ≠ dest.dropLast ∨ fs.node dest ≠ none) → fs'.node p = fs.node p) ∧
+    (dest ≠ [] → EqMod (fs.node dest.dropLast) (fs'.node dest.dropLast)) :=
+  have hC := restoreEntries_confinableL H es w w' nodes hv hs h
+  ⟨restoreToFs_outsideL hC hwf hD, restoreToFs_parentL hC hwf hD⟩
+
 /-- **No clobbering by default.**  Without the overwrite option, a destination that exists and
 has at least one entry is refused with `DestinationNotEmpty`, no error goes to the monitor, and
 the file system is the SAME afterwards (not a single node touched), for ANY listing.
@@ -150,8 +224,9 @@ private def nodesD11 : List RNode :=
 
 private def nobody : Str → Option Nat := fun _ => none
 
-/-- The same confinement claimed for ARBITRARY valid, strictly increasing listings (as the
-stitched listing of an interrupted version can be), even into an existing empty destination. -/
+/-- Confinement claimed for ARBITRARY valid, strictly increasing lists of nodes handed to the
+file system UNGUARDED — what `restore()` did BEFORE commit 7db24bb with the stitched listing of
+an interrupted version — even into an existing empty destination. -/
 def C16InterruptedStatement : Prop :=
   ∀ (fs : Fs) (dest : Path) (nodes : List RNode) (uidOf gidOf : Str → Option Nat),
     (∀ n ∈ nodes, isValid n.apath = true) →
@@ -159,8 +234,11 @@ def C16InterruptedStatement : Prop :=
     fs.wf = true → DestPlain fs dest → fs.isDir dest = true →
     ∀ p, ¬ under dest p → (restoreToFs fs dest false nodes uidOf gidOf).1.node p = fs.node p
 
-/-- **D11.**  For the listing `/` (dir), `/a` (symlink → `../outside`), `/a/b` (file) restore
-creates `/sandbox/outside/b`, beside the destination `/sandbox/dest`, and reports no error. -/
+/-- **D11, the behaviour of the code BEFORE commit 7db24bb** (`restoreToFs` applied to the
+unguarded node list).  For the listing `/` (dir), `/a` (symlink → `../outside`), `/a/b` (file)
+restore created `/sandbox/outside/b`, beside the destination `/sandbox/dest`, and reported no
+error.  Since 7db24bb the per-entry loop drops `/a/b` (`d11_guarded`, below) and
+`restore_confined_any_listing` holds. -/
 theorem c16_interrupted_refuted : ¬ C16InterruptedStatement := by
   intro h
   have := h fsD11 destD11 nodesD11 nobody nobody (by decide) (by decide) (by decide)
@@ -168,7 +246,10 @@ theorem c16_interrupted_refuted : ¬ C16InterruptedStatement := by
   revert this
   decide
 
-/-- What exactly happens in the D11 witness: the file lands in `outside`, whose mtime is stamped,
+/-- The same theorem under the name that says what it is about. -/
+theorem c16_unguarded_refuted_before_7db24bb : ¬ C16InterruptedStatement := c16_interrupted_refuted
+
+/-- What exactly happened in the D11 witness: the file lands in `outside`, whose mtime is stamped,
 and restore is silent about it. -/
 example : (restoreToFs fsD11 destD11 false nodesD11 nobody nobody).2 = ([], none) := by decide
 example : ((restoreToFs fsD11 destD11 false nodesD11 nobody nobody).1.node [sSandbox, sOutside, sB]) =
@@ -177,6 +258,50 @@ example : ((restoreToFs fsD11 destD11 false nodesD11 nobody nobody).1.node [sSan
     some (.dir 0o750 8 8 .now) := by decide
 /-- The D11 listing is valid and sorted but not tree-consistent. -/
 example : ¬ TreeConsistent nodesD11 := by decide
+
+/-! ### D11 after the repair -/
+
+/-- The D11 listing as index entries (the file has no content addresses). -/
+private def esD11 : List IndexEntry :=
+  [{ apath := [47], kind := .dir, mtime := 0, mtimeNanos := 0, unixMode := some 0o755, user := none,
+     group := none, addrs := [], target := none },
+   { apath := [47, 97], kind := .symlink, mtime := 0, mtimeNanos := 0, unixMode := none, user := none,
+     group := none, addrs := [], target := some ([46, 46, 47] ++ sOutside) },
+   { apath := [47, 97, 47, 98], kind := .file, mtime := 0, mtimeNanos := 0, unixMode := some 0o644,
+     user := none, group := none, addrs := [], target := none }]
+
+private def guardedD11 : List RNode :=
+  [{ apath := [47], kind := .dir, unixMode := some 0o755 },
+   { apath := [47, 97], kind := .symlink, target := some ([46, 46, 47] ++ sOutside) }]
+
+/-- **D11 repaired.**  For the D11 witness listing the per-entry loop of `restore()` now returns
+`/` and `/a` only — `/a/b`, below the symlink `/a`, is dropped and reported as
+`InvalidMetadata` — and restoring these nodes leaves `/sandbox/outside` exactly as it was and
+creates no `/sandbox/outside/b`. -/
+theorem d11_guarded :
+    ((restoreEntries id [] esD11).run (World.clean [])).1 = .ok guardedD11 ∧
+    ((restoreEntries id [] esD11).run (World.clean [])).2.events = [.error .invalidMetadata] ∧
+    (restoreToFs fsD11 destD11 false guardedD11 nobody nobody).1.node [sSandbox, sOutside] =
+      fsD11.node [sSandbox, sOutside] ∧
+    (restoreToFs fsD11 destD11 false guardedD11 nobody nobody).1.node [sSandbox, sOutside, sB] = none ∧
+    (restoreToFs fsD11 destD11 false guardedD11 nobody nobody).2 = ([], none) :=
+  ⟨rfl, rfl, by decide, by decide, by decide⟩
+
+/-- `restore_confined_any_listing` applies to the D11 listing (its hypotheses are satisfiable):
+nothing outside `/sandbox/dest` changes. -/
+example : ∀ p, ¬ under destD11 p →
+    (restoreToFs fsD11 destD11 false guardedD11 nobody nobody).1.node p = fsD11.node p := by
+  intro p hp
+  have h := (restore_confined_any_listing id esD11 (World.clean []) _ guardedD11 fsD11 destD11 nobody nobody
+    false (by decide) (by decide) rfl (by decide) (destPlain_of_B (by decide))).1
+  exact h p hp (Or.inr (by decide))
+
+/-- A listing in which an entry lies below a FILE entry (`/f` file, `/f/x` file) is confinable
+in the weak sense, and restore reports ENOTDIR for the second entry. -/
+example : (restoreToFs fsD11 destD11 false
+    [{ apath := [47], kind := .dir }, { apath := [47, 102], kind := .file, content := [1] },
+     { apath := [47, 102, 47, 120], kind := .file, content := [2] }] nobody nobody).2 =
+    ([{ what := .restoreFile, apath := [47, 102, 47, 120], errno := some .ENOTDIR }], none) := by decide
 
 /-! ### Non-vacuity -/
 
